@@ -38,8 +38,9 @@ func vHarnessAolGenesisRoundTrip() {
 		k1.SetTopic(ctx1, tk2, top2)
 	}
 	wk := types.WriterCompositeKey{OwnerAddress: o, TopicName: t1, WriterAddress: w}
-	wr := types.Writer{Moniker: "m", Description: vNondetAtom("wdesc"), NanoTimestamp: vNondetI64("wts")}
-	vAssume(len(wr.Description) <= 5000)
+	wr := types.Writer{Moniker: vNondetAtom("moniker"), Description: vNondetAtom("wdesc"), NanoTimestamp: vNondetI64("wts")}
+	// the writer passed message validation when it was added (an empty moniker is legal)
+	vAssume((&types.MsgAddWriterRequest{TopicName: t1, Moniker: wr.Moniker, Description: wr.Description, WriterAddress: wStr, OwnerAddress: oStr}).ValidateBasic() == nil)
 	hasW := true
 	if hasW {
 		k1.SetWriter(ctx1, wk, wr)
